@@ -4,7 +4,9 @@
 MC   : TLC checks AllOrNothing / UntouchedWhileRendering / PooledBuffersAreEmpty / StreamedAsDocumented on
        handler.go transcribed step by step over a net/http ResponseWriter model, for every configuration
        (Status x ContentType x ErrorHandler x Streaming) x every component (k chunks, ok/fail) x sequences of
-       MaxReq requests over one buffer pool. The error-handler kind "nilhandler" (the configured ErrorHandler returns
+       MaxReq requests over one buffer pool. A failing component fails with one of four error classes (plain, wraps
+       context.Canceled, wraps context.DeadlineExceeded, the request context really cancelled); handler.go treats them
+       alike and FailureIsReported (error handler consulted / default 500, never a success status) is decided per class. The error-handler kind "nilhandler" (the configured ErrorHandler returns
        a nil http.Handler, handler.go calls ServeHTTP on it and panics) has the terminal outcome "aborted": nothing of
        the document and no status line are committed (NoDocumentAfterFailure, AbortedSendsNothing). Five negative
        configs (modelled bugs, incl. nilFallsThrough: a nil error handler result continues on the success path) must
@@ -21,7 +23,8 @@ sys.path.insert(0, os.path.join(os.path.dirname(os.path.abspath(__file__)), ".."
 import vlib
 
 EH_KINDS = ["unset", "statusbody", "bodyonly", "nothing", "headers", "nilhandler"]
-NEGATIVES = ["headersFirst", "noReset", "bufferInErrorPath", "statusInErrorPath", "nilFallsThrough"]
+ERR_CLASSES = ["plain", "canceled", "deadline", "reqcancelled"]
+NEGATIVES = ["headersFirst", "noReset", "bufferInErrorPath", "statusInErrorPath", "nilFallsThrough", "silentOnCanceled"]
 
 
 def main():
@@ -52,7 +55,7 @@ def main():
     # --- GEN: every terminal state replayed on the real handler ---------------------------------
     gen = vlib.tlc("Handler", "gen.cfg", files={"gen.cfg": cfg("Handler_gen.cfg")}, workers=1, timeout=900)
     edges = gen.tagged("EDGE")
-    nconf = 3 * 2 * len(EH_KINDS) * 2 * (maxk + 1) * 2
+    nconf = 3 * 2 * len(EH_KINDS) * 2 * (maxk + 1) * (1 + len(ERR_CLASSES))
     # per configuration: request 1 on an empty pool, requests 2 and 3 (streamed: pool empty or not; buffered: not empty)
     expected = nconf * 4
     if not gen.ok or len(edges) != expected:
@@ -76,7 +79,7 @@ def main():
     binp = vlib.go_build("./c11", "c11")
 
     # binding self-test: corrupt one predicted field of a buffered case -> the harness must report exactly that case
-    bad = [dict(e) for e in edges if not e["cfg"]["stream"]][:200]
+    bad = [dict(e) for e in edges if not e["cfg"]["stream"] and (not e["cfg"]["fail"] or e["cfg"]["ecls"] == "canceled")][:200]
     k = next(j for j, e in enumerate(bad) if not e["cfg"]["stream"] and not e["cfg"]["fail"] and e["cfg"]["k"] >= 1)
     bad[k] = json.loads(json.dumps(bad[k]))
     bad[k]["final"]["status"] = 202
@@ -98,8 +101,10 @@ def main():
         raise vlib.InfraError("harness replayed %d of %d terminal states" % (s["cases"], len(edges)))
     if s["transports"].get("recorder", 0) < len(edges) or s["transports"].get("server", 0) < len(edges):
         raise vlib.InfraError("a transport was not exercised for every case: %s" % s["transports"])
-    need = {"Buffered.Success", "Buffered.DefaultError", "Streamed.Success", "Streamed.DefaultError"} | \
-           {"%s.ErrorHandler.%s" % (m, e) for m in ("Buffered", "Streamed") for e in EH_KINDS if e != "unset"}
+    classes = [""] + ["." + c for c in ERR_CLASSES if c != "plain"]
+    need = {"Buffered.Success", "Streamed.Success"} | \
+           {"%s.DefaultError%s" % (m, c) for m in ("Buffered", "Streamed") for c in classes} | \
+           {"%s.ErrorHandler.%s%s" % (m, e, c) for m in ("Buffered", "Streamed") for e in EH_KINDS if e != "unset" for c in classes}
     if set(s["branches"]) != need:
         raise vlib.InfraError("handler branches exercised: %s" % sorted(s["branches"]))
     # fail closed: the aborted outcome really was produced by panics of the handler, on both transports
@@ -119,14 +124,17 @@ def main():
     ck.set("traces_validated_against_impl", s["cases"])
     ck.set("exhaustive", True)
     ck.set("bounds", {"MaxK": maxk, "MaxReq": 3, "status": [0, 201, 404], "content_type": 2, "error_handler": len(EH_KINDS),
-                      "streaming": 2, "chunk_size_profiles": 4, "rounds": rounds})
+                      "streaming": 2, "error_classes": ERR_CLASSES, "chunk_size_profiles": 4, "rounds": rounds})
     ck.set("rule", "every Status{unset,201,404} x ContentType{default,custom} x ErrorHandler{unset,status+body,body only,nothing,headers,returns nil handler} "
-                   "x Streaming x component(k<=MaxK chunks, ok/fail) x request index 1..3 x pool state; each replayed with 4 chunk-size "
+                   "x Streaming x component(k<=MaxK chunks, ok / fails with a plain error, an error wrapping context.Canceled, one wrapping "
+                   "context.DeadlineExceeded, or ctx.Err() of a really cancelled request context) x request index 1..3 x pool state; each replayed with 4 chunk-size "
                    "profiles through ResponseRecorder and a real net/http server+client, in emitted order and in seeded shuffled orders "
                    "(request sequences over the real buffer pool)")
     ck.assume("net/http ResponseWriter rules as modelled: first Write implies 200, header map frozen at WriteHeader, http.Error sets text/plain and 500")
     ck.assume("a panic of ServeHTTP is a terminal outcome: net/http recovers it, logs it and closes the connection without finishing the "
               "response (observed through the real server transport); in buffered mode nothing has been committed at that point")
+    ck.assume("error class reqcancelled: the request context is cancelled before the handler renders; the response is still observed "
+              "(recorder / a server-side cancelled context); a mismatch without document bytes for that class is drift, not a violation")
     ck.assume("the component writes directly to the io.Writer it is given (func component); real generated code around it is exercised in buffered mode")
     ck.assume("streamed mode is specified as documented (partial output allowed); a streamed mismatch is model drift, not a violation of C11")
     ck.finish()
